@@ -91,9 +91,20 @@ func parseObs(text string) string {
 func runCases(file string, timeout time.Duration, f func(string) string) {
 	w := bufio.NewWriter(os.Stdout)
 	defer w.Flush()
+	// after 25 hangs the remaining cases are not run: each costs a full watchdog period and leaks a goroutine, and 25
+	// hanging inputs are enough to report (the check would otherwise take hours on a tree that hangs on a common shape)
+	hangs := 0
 	for _, c := range readCases(file) {
 		c := c
-		fmt.Fprintf(w, "%s\t%s\n", c.id, guarded(timeout, func() string { return f(c.text) }))
+		if hangs >= 25 {
+			fmt.Fprintf(w, "%s\tHANG-SKIPPED\n", c.id)
+			continue
+		}
+		r := guarded(timeout, func() string { return f(c.text) })
+		if r == "HANG" {
+			hangs++
+		}
+		fmt.Fprintf(w, "%s\t%s\n", c.id, r)
 	}
 }
 
